@@ -11,7 +11,7 @@ Driver handlers for C06.
 each output is a list or the atom `panic`.
 
 Verdict (per op, i.e. per iterator):
-* the property oracle (`Spec/Dfs.lean` + a naive closure-iteration reachability oracle) judges the
+* the property oracle (`Spec/Dfs.lean` + the naive reachability oracle `reachSetB` of `Spec/Graph.lean`) judges the
   IMPLEMENTATION's output: the sequence must be a depth-first preorder with the prescribed
   parents / depths, `predecessors()` its forest, and the yielded set the reachable set;
 * `KNOWN early-stop-on-stale-pop` only when (i) the implementation's output equals the model of
@@ -34,24 +34,6 @@ def orPanic {α : Type} (o : Out α) (v : V) : V := if o.ending == .panic then .
 /-- `none` = that call panicked. -/
 def optPanic {α : Type} (f : V → Option α) (v : V) : Option (Option α) :=
   if v == V.a "panic" then some none else (f v).map some
-
-/-- Naive reachability oracle (closure iteration over a Boolean array, at most `n` rounds, stops
-when a round adds nothing).  Same idea as `reachSetB` of `Spec/Graph.lean`, on an `Array` because
-the list version costs `n² · arcs` on the large dense cases. -/
-def reachArr (g : Graph) (S : List Nat) : Array Bool := Id.run do
-  let mut vis : Array Bool := Array.replicate g.n false
-  for s in S do
-    if s < vis.size then vis := vis.set! s true
-  for _ in [0:g.n] do
-    let mut changed := false
-    for u in [0:g.n] do
-      if vis[u]! then
-        for v in g.out u do
-          if v < vis.size && !vis[v]! then
-            vis := vis.set! v true
-            changed := true
-    if !changed then break
-  return vis
 
 /-- First reachable vertex that `xs` lacks, or first vertex of `xs` that is not reachable. -/
 def exactErr (g : Graph) (reach : Array Bool) (xs : List Nat) : Option String :=
@@ -144,7 +126,7 @@ def run (kind : Kind) (d : GDesc) (S : List Nat) (fam : String) (observed : List
   | some (xs, depths, preds, tree, obsItems) =>
     let nt := xs.length ≥ 2
     let what := match kind with | .iter => "Dfs" | .dist => "DfsDist" | .pred => "DfsPred"
-    let reach := reachArr g S
+    let reach := (reachSetB g S).toArray
     let (j, ann) := judgeSeq g S reach what xs depths preds
     let jt : Judge := match ann, tree with
       | some ann, some tree =>
